@@ -1131,12 +1131,23 @@ func (e *Engine) cmpAtom(v *env, x *ast.BinaryExpr, k func(*env, bool)) {
 		k(v, !neg)
 		return
 	}
-	if op == token.EQL && r == "nil" && (strings.HasPrefix(l, "&") || e.isNonNilExpr(lx)) {
+	if op == token.EQL && r == "nil" && (addrKey(l) || e.isNonNilExpr(lx)) {
 		k(v, neg)
 		return
 	}
 	key := l + " " + op.String() + " " + r
 	e.atom(v, Atom{Key: key, Expr: x, Op: op, L: l, R: r, LX: lx, RX: rx}, x.Pos(), func(v *env, b bool) { k(v, b != neg) })
+}
+
+// addrKey: the key is an address-of value itself (`&T{…}`, `&x.f`), not a field read through one (`&T{…}.f`).
+func addrKey(k string) bool {
+	if !strings.HasPrefix(k, "&") {
+		return false
+	}
+	if !strings.ContainsAny(k, "{(") {
+		return true
+	}
+	return strings.HasSuffix(k, "}")
 }
 
 // isNonNilExpr: composite literals, address-of and function literals are never nil.
